@@ -52,6 +52,11 @@ CLAIMED = {
         "Decides three necessary conditions of allocator consistency: split and merge conserve offsets, sizes and list links and free the merged chunk after its last use; a chunk is handed out only when unused and large enough, marked used, split only when larger and by the aligned size, with code and exec derived from the same chunk offset of the chunk's own region; the copy into the chunk has exactly the allocated length and rounding never shrinks it. Non-overlap and reuse over arbitrary histories, coalescing completeness and region growth are not decided.",
         "Trusted: clang AST; linear integer arithmetic without overflow below the 64 KiB region size.",
         "DESIGN.md §4 C09"),
+    "C11": (
+        "guarded-emission analysis (R-GUARD): rule registrations with rule-set flags, emission call sites resolved to table rows/register class/operand form through helper calls with accumulated target_flags guards, ISA level per instruction form from GNU as under restricted -march sets",
+        "Decides sentence 1 for all three x86 backends: every instruction an emitter can produce (about 2000 distinct rule/site/row/class obligations) needs an ISA level implied by the required flags of every rule set the rule is registered in plus the target_flags tests dominating the site; non-rule emitters are held to the weakest rule-set requirement of their backend. Sentence 2 (same results for every flag subset) is not decided.",
+        "Trusted: binutils' extension tables as ISA reference; hardware implication between ladder levels; MMXEXT implies only the SSE integer extensions on mm registers. Sites whose opcode argument is not constant-resolvable are listed as information.",
+        "DESIGN.md §4 C11"),
 }
 
 NOT_YET = "check under construction in this round; not claimed until its rules are exact on the current tree"
